@@ -160,6 +160,8 @@ static void _iovec_init(void) {
 		int pos = scalar_sizes[i].type - MPT_ENUM(_TypeScalarBase);
 		*((size_t *) &iovec_types[pos].size) = sizeof(struct iovec);
 	}
+	/* generic vector data */
+	*((size_t *) &iovec_types[MPT_ENUM(TypeVector) - MPT_ENUM(_TypeVectorBase)].size) = sizeof(struct iovec);
 	atexit(_iovec_fini);
 }
 /* dynamic basic type resources */
